@@ -92,6 +92,28 @@ CHECKS = {
          '= real output (as parsed trees) on all 5 keyframes spellings x 1-6 frames x 3 contexts, the declaration-block at-rules with and '
          'without a space before the brace, 7 statement forms x 3 positions, and random mixed sheets with variable and expression values.'),
    note=BASE_NOTE + ' Open known finding C19-frame-list (comma separated frame selectors are a syntax error). At-rules written inside an ordinary rule are outside the property\'s quantifier.'),
+ 'C05': dict(category='proof',
+   technique='Lean 4: model of the mixin table, parameter binding and expansion with depth counter; theorems: definitions silent and order-free, binding laws, expansion = evaluation of the textually substituted body; differential correspondence',
+   text=('17 theorems about the model of scope.add_mixin/mixins, Mixin.parse_args/call and Deferred.parse: definitions emit nothing and may '
+         'stand anywhere (C05_silent, C05_def_after_use, C05_silent_and_order), compile is compositional over top-level rules so a rule used as a '
+         'mixin is emitted as if it were not (C05_rule_still_emitted), positional binding / defaults / missing argument (C05_bind_*), @arguments '
+         '(C05_arguments), the depth cutoff at 64 (C05_depth_limit), and the main theorem C05_inline: evaluating a body in the frame binding the '
+         'parameters equals evaluating the body with the parameters textually replaced by the arguments, for bodies with declarations, nested '
+         'rules and calls (incl. guarded recursion), under three decidable hypotheses (literal scope, table bodies closed over their own '
+         'parameters, argument shapes) each shown necessary by a kernel-checked counterexample. Tie: model = real output on random programs '
+         '(arity 0-3, defaults, , and ; separators, nested rules, &, calls in bodies, calls before definitions, rules as mixins, recursion '
+         'depth up to 63 in thorough) and both = an independent textual inliner.'),
+   note=BASE_NOTE + ' @media in mixin bodies is checked by C07 (oracle); which callee variables the caller sees is outside the property. Multi-token arguments containing variables and defaults referring to earlier parameters are excluded by hypothesis in C05_inline (they are exercised by the correspondence only as far as the generator produces them: not at all).'),
+ 'C18': dict(category='proof',
+   technique='Lean 4: model of string scanning (plain and interpolated) and of interpolation, theorems by induction over the body; differential correspondence with hostile bodies',
+   text=('C18_scan_plain/C18_scan_empty: for EVERY body without the delimiter and @ (braces, semicolons, comment markers, repeated spaces, '
+         'combinators...) the scanner yields one text part and resumes exactly after the closing quote; C18_scan_parts: any sequence of text '
+         'and @{name} parts is read back as written; C18_verbatim: evaluation copies the body between the written delimiters; C18_subst: '
+         'each @{x} is replaced by the de-quoted value of x and nothing else changes; C18_compose: parts are independent (no state); '
+         'C18_destring. Selector interpolation is covered by C03 (resolveSel). Tie: string token byte-exact in the real output for 38 '
+         'hostile bodies + random printable-ASCII bodies x both quote kinds x 6 value positions x minified/default output, 1-3 interpolations '
+         'with every variable also used plainly before and after, shadowing scenarios, selector interpolation forms.'),
+   note=BASE_NOTE + ' Backslash and @ inside bodies are outside the property (the lexer has no escape handling: recorded in DESIGN).'),
 }
 NOT_APPLICABLE = {p: 'check under construction in this round (see DESIGN.md section 10 build order); not claimed yet' for p in
-  ['C01','C05','C10','C11','C12','C13','C14','C15','C16','C18','C20']}
+  ['C01','C10','C11','C12','C13','C14','C15','C16','C20']}
